@@ -1087,6 +1087,73 @@ func c18Numeric(r *fw.Rec, blk, nblk int) {
 		c18HostRoundTrip(r, "DwarfTag", fmt.Sprintf("tag%d", tag), tag, fmt.Sprint(tag), ad["DwarfTag"])
 	}
 	r.NontrivialN("numeric-tag", n)
+	c18NumericCCText(r)
+}
+
+// c18NumericCCText goes the other way round: the text `cc N` for every N below
+// 1024 (named conventions included) is parsed and printed, and LLVM must read
+// the printed declaration as the same calling convention as the input.
+func c18NumericCCText(r *fw.Rec) {
+	var sb strings.Builder
+	for cc := 0; cc < 1024; cc++ {
+		fmt.Fprintf(&sb, "declare cc %d void @f%d()\n", cc, cc)
+	}
+	x := sb.String()
+	lx, _, okX, err := llvmref.Reading(x)
+	if err != nil || !okX {
+		r.Inconclusive("llvm-as does not accept the numeric calling-convention module")
+		return
+	}
+	m, perr, pmsg := parseGuard("c18-cc", x)
+	if pmsg != "" || perr != nil {
+		what := pmsg
+		if perr != nil {
+			what = perr.Error()
+		}
+		r.Violate(fw.Violation{Key: "numeric-cc-text/rejected", Input: x, What: "declarations with numeric calling conventions are rejected: " + firstLine(what)})
+		return
+	}
+	y, pp := printGuard(m)
+	if pp != "" {
+		r.Violate(fw.Violation{Key: "numeric-cc-text/print-panic", Input: x, What: firstLine(pp)})
+		return
+	}
+	ly, msgY, okY, err := llvmref.Reading(y)
+	if err != nil {
+		return
+	}
+	if !okY {
+		r.Violate(fw.Violation{Key: "numeric-cc-text/output-invalid", Input: x, What: "LLVM rejects the printed declarations: " + firstLine(lastDiag(msgY)), Observed: y})
+		return
+	}
+	conv := func(text string) map[string]string {
+		out := map[string]string{}
+		for _, l := range strings.Split(text, "\n") {
+			if !strings.HasPrefix(l, "declare ") {
+				continue
+			}
+			at := strings.Index(l, "@f")
+			if at < 0 {
+				continue
+			}
+			name := l[at+1 : strings.Index(l[at:], "(")+at]
+			out[name] = strings.TrimSpace(strings.TrimSuffix(strings.TrimPrefix(l[:at], "declare "), "void "))
+		}
+		return out
+	}
+	cx, cy := conv(lx), conv(ly)
+	n := 0
+	for cc := 0; cc < 1024; cc++ {
+		name := fmt.Sprintf("f%d", cc)
+		r.Eval(1)
+		if cx[name] != cy[name] {
+			r.Violate(fw.Violation{Key: fmt.Sprintf("numeric-cc-text/cc%d", cc), Input: fmt.Sprintf("declare cc %d void @f()", cc),
+				What: fmt.Sprintf("`cc %d` (LLVM: `%s`) is printed so that LLVM reads `%s`", cc, cx[name], cy[name])})
+			continue
+		}
+		n++
+	}
+	r.NontrivialN("numeric-cc-text", n)
 }
 
 // c18HeaderCombos sets every LLVM-valid combination of the keyword families
